@@ -59,6 +59,30 @@ def source(case):
         return design.build_netlist(design.materialize((d[0], tuple(d[1]), d[2]))), "api:hier"
     if kind == "edif-text":
         return c05.parse_text(edif_writer.render(fdesigns.BASES[case[2]]())), "edif-reader:" + case[2]
+    if kind == "api-deep":
+        # hierarchies beyond toy size, declared parent first in ONE library (the EDIF writer has to sort them):
+        # a chain of 40 cells, and 6 layers of 8 cells each of which instances every cell of the layer below
+        n = s.Netlist(name="deep")
+        lib = n.create_library(name="work")
+        if case[2] == "chain":
+            cells = [lib.create_definition(name="c%02d" % i) for i in range(40)]
+            for up, down in zip(cells, cells[1:]):
+                up.create_child(name="u", reference=down)
+            top = cells[0]
+        else:
+            layers = [[lib.create_definition(name="l%d_%d" % (a, b)) for b in range(8)] for a in range(6)]
+            for upper, lower in zip(layers, layers[1:]):
+                for d in upper:
+                    for k, e in enumerate(lower):
+                        d.create_child(name="u%d" % k, reference=e)
+            top = lib.create_definition(name="top")
+            for k, d in enumerate(layers[0]):
+                top.create_child(name="t%d" % k, reference=d)
+        for d in lib.definitions:
+            d.create_port(name="p", pins=1)
+        n.top_instance = top
+        n.top_instance.name = "top_i"
+        return n, "api-deep:" + case[2]
     if kind == "api-foreign-cell":
         # a design that instances a cell living in a library of ANOTHER netlist: not writable as EDIF
         n = design.build_netlist(c03.to_api(fdesigns.BASES[case[2]]()))
@@ -122,6 +146,9 @@ def _worker(case):
     n, tag = source(case)
     opts = dict(opts)
     nameless = bool(opts.pop("_nameless", False))
+    if opts.pop("_comment_string", False):
+        n["EBLIF.comment"] = "one plain string"     # user data of another type than the reader would store
+        tag += ":comment-string"
     method = bool(opts.pop("_method", False))
     if nameless and target != ".edf":
         del n.name
@@ -228,6 +255,8 @@ def cases(tier):
             srcs.append(("edif-text-ids", b))
         if b in ("E1", "E4") or tier == "thorough":
             srcs.append(("api-foreign-cell", b))
+    srcs.append(("api-deep", "chain"))
+    srcs.append(("api-deep", "layers"))
     for desc in design.family_hier(tier, variants=("plain", "two-libraries")):
         if desc[0] in ("K8-bus",) or (desc[0] in ("K1-chain2", "K2-shared") and (tier == "thorough" or sum(desc[1]) % 5 == 0)):
             srcs.append(("api-hier", desc))
@@ -252,6 +281,8 @@ def cases(tier):
         if src == ("api-base", "E1") or src[0] == "verilog-text" and src[1] == [0, 1, 2]:
             for alias in (".edif", ".EDF", ".vh", ".vm", ".V", ".blif", ".EBLIF"):
                 out.append(((alias, {}),) + src + ("asc",))
+        if src[0] in ("api-base", "eblif-text"):
+            out.append(((".eblif", {"_comment_string": True}),) + src + ("asc",))
         if src[0] in ("api-base", "verilog-text", "eblif-text"):
             # the Netlist.compose shortcut, also on a netlist that has no name
             for t in TARGETS:
